@@ -176,11 +176,11 @@ theorem expandMacros_plain (action : Bool) : ∀ (b acc : Bytes) (fuel : Nat), (
       rw [ih (acc ++ [c]) f (fun e => hb (by simp [e])) (by simp only [List.length_cons] at hf; omega)]
       simp
 
-theorem expandStr_plain (home : Bytes) (action : Bool) (b : Bytes) (h : strOK b = true) :
-    expandStr home action [] b = some (b, []) := by
+theorem expandStr_plain (l : Lim) (home : Bytes) (action : Bool) (b : Bytes) (h : strOK b = true) :
+    expandStr l home action [] b = some (b, []) := by
   obtain ⟨_, _, _, h36, htilde, _, _⟩ := strOK_facts h
-  have ht : expandTilde home b = some b := by
-    unfold expandTilde
+  have ht : expandTildeL l home b = some b := by
+    unfold expandTildeL
     split
     · simp at htilde
     · rfl
@@ -188,14 +188,14 @@ theorem expandStr_plain (home : Bytes) (action : Bool) (b : Bytes) (h : strOK b 
   rw [expandMacros_plain action b [] (b.length + 1) h36 (by omega)]
   simp
 
-theorem expandStrs_plain (home : Bytes) (action : Bool) : ∀ (l : List Bytes), (∀ b ∈ l, strOK b = true) →
-    expandStrs home action [] l = some (l, []) := by
+theorem expandStrs_plain (lm : Lim) (home : Bytes) (action : Bool) : ∀ (l : List Bytes), (∀ b ∈ l, strOK b = true) →
+    expandStrs lm home action [] l = some (l, []) := by
   intro l
   induction l with
   | nil => intro _; rfl
   | cons b l ih =>
     intro h
-    simp only [expandStrs, expandStr_plain home action b (h b (by simp)), ih (fun x hx => h x (by simp [hx]))]
+    simp only [expandStrs, expandStr_plain lm home action b (h b (by simp)), ih (fun x hx => h x (by simp [hx]))]
 
 theorem state_macros_nil (s : ParseSt) (h : s.macros = []) : { s with macros := [] } = s := by
   cases s; simp_all
@@ -205,7 +205,7 @@ theorem wp_expandOne_up (cx : PCtx) (action : Bool) (b : Bytes) (hb : strOK b = 
   have hm : s.macros = [] := by
     rcases h with h | ⟨_, _, _, _, h⟩ <;> exact h.mac
   unfold wp expandOne
-  rw [hm, expandStr_plain cx.home action b hb]
+  rw [hm, expandStr_plain cx.pathMax cx.home action b hb]
   simp only
   rw [← hm, show ({ s with macros := s.macros } : ParseSt) = s from by cases s; rfl]
   exact hQ
@@ -216,7 +216,7 @@ theorem wp_expandAll_up (cx : PCtx) (action : Bool) (l : List Bytes) (hl : ∀ b
   have hm : s.macros = [] := by
     rcases h with h | ⟨_, _, _, _, h⟩ <;> exact h.mac
   unfold wp expandAll
-  rw [hm, expandStrs_plain cx.home action l hl]
+  rw [hm, expandStrs_plain cx.pathMax cx.home action l hl]
   simp only
   rw [← hm, show ({ s with macros := s.macros } : ParseSt) = s from by cases s; rfl]
   exact hQ
